@@ -12,6 +12,8 @@ OP_OWNER = {
     "new": ["C08"], "select": ["C08"], "drop": ["C08"], "slice": ["C08"], "copy": ["C08"],
     "equals": ["C09"],
     "wf": ["C10"],
+    "csvraw": ["C12"], "csvread": ["C12"],
+    "csvfault": ["C15"], "csvreadfault": ["C15"],
 }
 
 BASE = "filter+sort+slice+select+drop+copy+apply+fapply+rownums+eval+distinct+groupagg+groupframes+equals"
@@ -40,6 +42,15 @@ PROPS = {
     "C07": {"lean": ["QF.Props.C06"], "extra_ns": ["QF.Props.C06"], "sections": [hist("hist", ["eval"])]},
     "C08": {"lean": ["QF.Props.C08"], "sections": [hist("hist", ["select", "drop", "slice", "copy"], cover=["new", "select", "drop", "slice", "copy"])]},
     "C09": {"lean": ["QF.Props.C06"], "extra_ns": ["QF.Props.C06"], "sections": [hist("hist", ["equals"])]},
+    "C12": {"lean": ["QF.Props.C12"],
+            "sections": [{"section": "csvraw", "quick": 300, "thorough": 3000, "cover_ops": {"C"}},
+                         {"section": "csvread", "quick": 300, "thorough": 3000, "cover_ops": {"CV"}}],
+            "rule": "cases = (document, read schedule) pairs read by the real fastcsv reader / ReadCSV and replayed through the L0 mirror (exact rows, errors, stale bytes) "
+                    "and the RFC 4180 scanner (what the document denotes); distinct by transcript line; every generated document has quotes, delimiters or line breaks in cells with probability > 1/2"},
+    "C15": {"lean": ["QF.Props.C12"], "extra_ns": ["QF.Props.C12"],
+            "sections": [{"section": "csvraw", "tag": "csvrawfaults", "opt": "faults=1", "quick": 60, "thorough": 600, "cover_ops": {"C"}},
+                         {"section": "csvread", "tag": "csvreadfaults", "opt": "faults=1", "quick": 400, "thorough": 4000, "cover_ops": {"CV"}}],
+            "rule": "cases = (document, schedule, failing call number); csvraw enumerates EVERY call number of the chosen schedule per document; distinct by transcript line"},
     "C10": {"lean": ["QF.Props.C06"], "extra_ns": ["QF.Props.C06"], "sections": [dict(hist("hist", []), cover_ops=None)]},
 }
 
@@ -56,6 +67,12 @@ def _lt(text, technique, note=""):
 
 
 LEVEL_TEXT = {
+    "C12": _lt("read_schedule_independent / any_two_schedules_agree: the mirror of the whole fastcsv reader returns the same rows, fields and error for every read schedule (lock-step simulation against the fully loaded buffer); qscan_content: an escaped field is read back as its content. The real reader and ReadCSV are compared exactly with the L0 mirror and with the RFC 4180 scanner / ReadCSV spec on generated documents, schedules and configurations.",
+               "Lean 4 proof (simulation: any schedule = loaded buffer) + differential correspondence",
+               "strconv parsing is a parameter (oracle computed by the harness from the standard library). Two recorded findings (CR inside quotes, trailing empty field at EOF) are excluded by name."),
+    "C15": _lt("Fault enumeration against the reader model: for every call number at which the underlying reader fails, the model decides whether that call is reached; if it is, the fastcsv reader must end in failure and ReadCSV must return Err (never an error-free partial frame). Writer and SQL faults: see evidence open_goals.",
+               "Lean 4 model of the reader with fault positions (theorems shared with C12) + exhaustive fault-position correspondence",
+               "Only the CSV input path is covered so far; ToCSV/ToJSON/ReadJSON/ReadSQL/ToSQL fault checks are open goals."),
     "C01": _lt("Kernel-checked theorems (frame_condition, history_persistent) that in the allocation/ownership model of the operations no history of operations can change an array that existed before; the real code is tied to the model by re-observing every earlier frame after every step of generated histories.",
                "Lean 4 proof (invariant over histories in a heap model) + differential correspondence",
                "The Go memory model and slice aliasing are represented only by the ownership discipline; that each operation obeys it is validated by T2, not proved from the Go source."),
